@@ -73,8 +73,16 @@ def run_history(run, rng, hid, maxlen, steps):
         case = {"history": hid, "step": stepno, "pre": pre, "op": op[:4]}
         try:
             out = O.apply_impl(td, op)
-            op = op[:4]
             post = O.snap(td)
+            if op[0] == "write":
+                # the model is given the observed state of the addressed node: it accepts it iff it lies inside the envelope
+                obs = O.get_at(post, op[1])
+                before = O.get_at(pre, op[1])
+                run.count("write", f"{op[4]['call']}:{out[0]}" + (":new-entries" if obs is not None and before is not None and len(O.entries_of(obs)) > len(O.entries_of(before)) else ""))
+                op = ["write", op[1], op[2], obs if obs is not None else before, op[4]]
+                case["op"] = op[:3] + [op[4]]
+            else:
+                op = op[:4]
             viol = O.walk_coherent(td)
         except TimeoutError:
             raise
@@ -85,7 +93,7 @@ def run_history(run, rng, hid, maxlen, steps):
             run.count("ops", "auto:out-of-scope")
             return        # the documented exclusion: the tree is legitimately incoherent from here on
         run.case(json.dumps([pre, op]))
-        run.count("ops", op[0])
+        run.count("ops", op[0] if op[0] != "write" else "write:" + op[4]["call"])
         run.count("outcome", out[0] + (":" + out[1] if out[0] == "err" else ""))
         run.count("batch_rank", len(pre[1]))
         run.count("handle_depth", len(op[1]))
@@ -159,6 +167,9 @@ def main():
         "locking, memmap/shared state are outside the model; lazy stacks / tensorclass / non-tensor entries / in-place and index writes / update(update_batch_size=True) / select in place are oracle-only",
     ]
     run.build_and_audit(["TdVerif.Props.C01"])
+    import c04_pins
+    from common import REPO as _REPO
+    c04_pins.check(run, _REPO, "C01")
     drv = run.driver()
     rng = run.rng
     if run.replay:
@@ -180,7 +191,8 @@ def main():
         v = parse_sx(a)
         model = [O.tree_from_sx(v[0]), ["ok"] if v[1][0] == "ok" else ["err", v[1][1]]]
         run.corr("step.state", s["case"], s["impl"][0], model[0])
-        run.corr("step.outcome", s["case"], s["impl"][1], model[1])
+        if s["op"][0] != "write":      # the outcome of a write into storage depends on torch's `tensor[index] = value`: not modelled
+            run.corr("step.outcome", s["case"], s["impl"][1], model[1])
     for s in steps[:3]:
         run.sample({"pre": s["pre"], "op": s["op"], "impl_post": s["impl"][0], "impl_out": s["impl"][1]})
     import c01_extended
